@@ -20,7 +20,7 @@ def _tref_time(tref, P):
     return Time(float(T0 + (c + Fraction(k, L)) * P), format="mjd", scale="tcb")
 
 
-def _data(slots, P, order=None, mirror=False, tref=None, sort=True, dirty=False):
+def _data(slots, P, order=None, mirror=False, tref=None, sort=True, dirty=False, tarray=False):
     import astropy.units as u
     from astropy.time import Time
     from thejoker import RVData
@@ -44,6 +44,9 @@ def _data(slots, P, order=None, mirror=False, tref=None, sort=True, dirty=False)
         kw["t_ref"] = _tref_time(tref, P)
     if not sort:
         kw["sort"] = False
+    if tarray:
+        # epochs handed over as a plain float64 array of BMJD (documented form) instead of an astropy Time
+        return RVData(np.array(tt, dtype=np.float64), rv, err, **kw)
     return RVData(Time(tt, format="mjd", scale="tcb"), rv, err, **kw)
 
 
@@ -112,10 +115,10 @@ def check_diag(case, part):
     ambiguous = {i for i, p in enumerate(pos) if p != p0}
     obs = []
     for order in case["orders"]:
-        for sort, dirty in ((True, False), (False, False), (True, True)):
-            c2 = dict(case, order=order, sort=sort, dirty=dirty)
+        for sort, dirty, tarray in ((True, False, False), (False, False, False), (True, True, False), (True, False, True)):
+            c2 = dict(case, order=order, sort=sort, dirty=dirty, tarray=tarray)
             try:
-                d = _data(slots, P, order=order, tref=tref, sort=sort, dirty=dirty)
+                d = _data(slots, P, order=order, tref=tref, sort=sort, dirty=dirty, tarray=tarray)
                 gap = float(np.squeeze(sa.max_phase_gap(samp, d)))
                 span = float(np.squeeze(sa.periods_spanned(samp, d)))
                 covs = {nb: float(np.squeeze(sa.phase_coverage(samp, d, n_bins=nb))) for nb in case["bins"]}
